@@ -283,9 +283,11 @@ class ClassicalDataDictionaryStore(ClassicalDataStore):
         return rep + ')'
 
     def _value_equality_values_(self):
+        # Records and qubit groups are compared by content: a store read back from JSON holds them
+        # as lists, a store filled by a simulation as tuples.
         return (
-            self._records,
+            {k: [tuple(r) for r in rs] for k, rs in self._records.items()},
             self._channel_records,
             self._measurement_types,
-            self._measured_qubits,
+            {k: [tuple(qs) for qs in qss] for k, qss in self._measured_qubits.items()},
         )
